@@ -126,7 +126,14 @@ class OpaqueNN(Opaque):
     """An opaque value known not to be None."""
 
 
-class SetOf(Opaque):
+class StrV(OpaqueNN):
+    """A piece of text: never None; whatever is computed from it with %, + or its own methods is text again."""
+
+    def __init__(self):
+        Opaque.__init__(self, "str")
+
+
+class SetOf(OpaqueNN):
     """set(X) of a variable list X: only its size relative to X is ever asked (duplicate test)."""
 
     __slots__ = ("vs", "text")
@@ -135,6 +142,28 @@ class SetOf(Opaque):
         Opaque.__init__(self, "set")
         self.vs = vs
         self.text = text
+
+
+class LenV(OpaqueNN):
+    """len(X) of a variable list or of set(X): compared only with the other one (duplicate test)."""
+
+    __slots__ = ("of", "text")
+
+    def __init__(self, of: Any, text: str):
+        Opaque.__init__(self, "len")
+        self.of = of
+        self.text = text
+
+
+class IndexV(OpaqueNN):
+    """X.index(v): the position of a variable in a variable list, used only to store another variable there."""
+
+    __slots__ = ("vs", "var")
+
+    def __init__(self, vs: Any, var: Any):
+        Opaque.__init__(self, "int")
+        self.vs = vs
+        self.var = var
 
 
 class NoneV:
@@ -232,6 +261,7 @@ class Interp:
         self.ctor_calls: List[dict] = []
         self.mutations: List[dict] = []
         self.depth = 0
+        self.vs_names: Dict[int, Any] = {}
         self.max_depth = max_depth
         self.func_stack: List[FuncInfo] = []
         self.opaque_vars: Dict[str, Any] = {}
@@ -376,6 +406,11 @@ class Interp:
                 else:
                     raise AnalysisError("missing argument %s for %s" % (p, fi.key))
         env["__class_ctx__"] = cls_ctx or (fi.cls.name if fi.cls else None)
+        if self.depth == 0:
+            # the lists the entry point receives are known by its parameter names wherever they are passed on
+            for p, v in env.items():
+                if isinstance(v, VS):
+                    self.vs_names.setdefault(id(v), (p, v))
         self.depth += 1
         self.func_stack.append(fi)
         try:
@@ -386,6 +421,10 @@ class Interp:
             self.depth -= 1
             self.func_stack.pop()
         return NONE
+
+    def vs_name(self, v: Any, text: str) -> str:
+        hit = self.vs_names.get(id(v)) if isinstance(v, VS) else None
+        return hit[0] if hit is not None and hit[1] is v else text
 
     def eval_const_default(self, d: ast.AST):
         if isinstance(d, ast.Constant):
@@ -471,10 +510,11 @@ class Interp:
             return
         if isinstance(s, ast.For):
             it = self.eval(s.iter, env)
-            if isinstance(it, ListV) and not getattr(it, "unknown", False):
+            if (isinstance(it, ListV) and not getattr(it, "unknown", False)) or isinstance(it, TupleV):
                 for x in it.items:
                     self.assign(s.target, x, env)
                     self.exec_block(s.body, env)
+                self.exec_block(s.orelse, env)
                 return
             if isinstance(it, VS) and isinstance(s.target, ast.Name) and not s.orelse:
                 # a filter loop: the body is run once for the generic element; per-element tests split its classes
@@ -560,6 +600,14 @@ class Interp:
                         base.tt = (base.tt & neg(old.tt)) | val.tt
                         base.nodup = nd
                         return
+                iv = self.eval(idx, env) if isinstance(idx, ast.Name) else None
+                if isinstance(iv, IndexV) and iv.vs is base and isinstance(iv.var, VarV):
+                    # position = xs.index(old) ; xs[position] = new   (the index kept in a variable)
+                    old = iv.var
+                    nd = base.nodup and (base.tt & val.tt & self.allowed) == 0
+                    base.tt = (base.tt & neg(old.tt)) | val.tt
+                    base.nodup = nd
+                    return
             raise AnalysisError("subscript store %s in %s is outside the fragment" % (norm(t), self.cur))
         raise AnalysisError("assignment target %s" % norm(t))
 
@@ -582,7 +630,9 @@ class Interp:
             return NONE
         if isinstance(e.value, bool):
             return Cond(("const", e.value))
-        return Opaque("const:%r" % (e.value,))
+        if isinstance(e.value, str):
+            return StrV()
+        return OpaqueNN("const:%r" % (e.value,))
 
     def ev_Name(self, e, env):
         if e.id in env:
@@ -594,12 +644,21 @@ class Interp:
                 if r.__class__.__name__ == "ClassInfo":
                     return TypeV(r.name)
                 return r
+            okc, val = self.prog.resolve_constant(fi.module, e.id)
+            if okc:
+                return StrV() if isinstance(val, str) else OpaqueNN("const:%r" % (val,))
             if e.id in fi.module.assigns:
-                return Opaque("global:%s.%s" % (fi.module.base, e.id))
+                return self._global_value(fi.module, e.id)
         return Opaque("name:" + e.id)
 
+    def _global_value(self, mi, name):
+        v = mi.assigns.get(name)
+        if isinstance(v, (ast.JoinedStr,)) or (isinstance(v, ast.Constant) and isinstance(v.value, str)):
+            return StrV()
+        return Opaque("global:%s.%s" % (mi.base, name))
+
     def ev_JoinedStr(self, e, env):
-        return Opaque("str")
+        return StrV()
 
     def ev_Lambda(self, e, env):
         return Opaque("lambda")
@@ -678,6 +737,9 @@ class Interp:
             return r
         return None
 
+    def ev_Lambda(self, e, env):
+        return ("lambda", e, dict(env))  # a function value with the variables it can see
+
     def ev_NamedExpr(self, e, env):
         v = self.eval(e.value, env)
         if isinstance(e.target, ast.Name):
@@ -738,8 +800,10 @@ class Interp:
                 return Cond(c_and([l.c, r.c]))
             if isinstance(op, ast.BitOr):
                 return Cond(c_or([l.c, r.c]))
+        if isinstance(l, StrV) or isinstance(r, StrV):
+            return StrV()
         if isinstance(op, ast.Mod) or isinstance(op, ast.Add):
-            return Opaque("str")
+            return OpaqueNN("str")  # text or a number: whatever % and + give, it is not None
         return Opaque("binop:" + norm(node))
 
     _tlop_cache: Dict[Tuple[str, str], str] = {}
@@ -755,6 +819,30 @@ class Interp:
             return Opaque("cmp")
         op = e.ops[0]
         ln, rn = e.left, e.comparators[0]
+        # a length kept in a variable compared with the length of the set kept in another (possibly in a helper
+        # that sees the list under another name): the duplicate test of the list the caller passed
+        def _lenlike(n_):
+            if isinstance(n_, ast.Name):
+                return isinstance(env.get(n_.id), LenV)
+            if isinstance(n_, ast.Call) and isinstance(n_.func, ast.Name) and n_.func.id == "len" and len(n_.args) == 1 and not n_.keywords:
+                a_ = n_.args[0]
+                return isinstance(a_, ast.Name) and isinstance(env.get(a_.id), (VS, SetOf))
+            return False
+
+        if _lenlike(ln) and _lenlike(rn) and (isinstance(ln, ast.Name) or isinstance(rn, ast.Name)):
+            lv, rv = self.eval(ln, env), self.eval(rn, env)
+            if isinstance(lv, LenV) and isinstance(rv, LenV):
+                whole, uniq = (lv, rv) if isinstance(lv.of, VS) else (rv, lv)
+                if isinstance(whole.of, VS) and isinstance(uniq.of, SetOf) and uniq.of.vs is whole.of:
+                    c = ("op", "has_duplicates(%s)" % self.vs_name(whole.of, whole.text))
+                    if whole.of.nodup:
+                        c = FALSE
+                    swapped = whole is rv
+                    more = (ast.Lt if swapped else ast.Gt)
+                    if isinstance(op, (ast.NotEq, more)):
+                        return Cond(c)
+                    if isinstance(op, ast.Eq) or isinstance(op, (ast.GtE if swapped else ast.LtE)):
+                        return Cond(c_not(c))
         # len(X) <op> <int const>  /  len(X) != len(set(X))
         if isinstance(ln, ast.Call) and isinstance(ln.func, ast.Name) and ln.func.id == "len" and len(ln.args) == 1:
             if (
@@ -767,8 +855,8 @@ class Interp:
                 and rn.args[0].func.id == "set"
                 and norm(rn.args[0].args[0]) == norm(ln.args[0])
             ):
-                c = ("op", "has_duplicates(%s)" % norm(ln.args[0]))
                 xv = self.eval(ln.args[0], env)
+                c = ("op", "has_duplicates(%s)" % self.vs_name(xv, norm(ln.args[0])))
                 if isinstance(xv, VS) and xv.nodup:
                     c = FALSE
                 if isinstance(op, ast.NotEq) or isinstance(op, ast.Gt):
@@ -780,7 +868,7 @@ class Interp:
             if isinstance(x, VS) and isinstance(rn, ast.Call) and isinstance(rn.func, ast.Name) and rn.func.id == "len" and len(rn.args) == 1:
                 y = self.eval(rn.args[0], env)
                 if isinstance(y, SetOf) and (y.vs is x or y.text == norm(ln.args[0])):
-                    c = ("op", "has_duplicates(%s)" % y.text)
+                    c = ("op", "has_duplicates(%s)" % self.vs_name(x, y.text))
                     if x.nodup:
                         c = FALSE
                     if isinstance(op, (ast.NotEq, ast.Gt)):
@@ -797,6 +885,10 @@ class Interp:
             return Cond(("op", "cmp(%s)" % norm(e)))
         l = self.eval(ln, env)
         r = self.eval(rn, env)
+        if isinstance(op, (ast.Is, ast.IsNot, ast.Eq, ast.NotEq)) and isinstance(l, Cond) and isinstance(r, Cond):
+            # two truth values compared: they agree, or they differ
+            same = c_or([c_and([l.c, r.c]), c_and([c_not(l.c), c_not(r.c)])])
+            return Cond(same if isinstance(op, (ast.Is, ast.Eq)) else c_not(same))
         if isinstance(op, (ast.Is, ast.IsNot)):
             if isinstance(r, NoneV):
                 if isinstance(l, NoneV):
@@ -849,7 +941,9 @@ class Interp:
         if isinstance(base, ListV):
             return ("listmethod", base, e.attr)
         if isinstance(base, VarV) and e.attr == "name":
-            return Opaque("str")
+            return StrV()
+        if isinstance(base, StrV):
+            return ("strmethod", e.attr)
         if isinstance(base, tuple) and base and base[0] == "super":
             fi = self.prog.resolve_super(base[1], e.attr)
             if fi is None:
@@ -897,20 +991,28 @@ class Interp:
                 return Opaque("type")
             if f.id == "isinstance" and len(e.args) == 2:
                 return Cond(("op", "isinstance(%s)" % ", ".join(norm(a) for a in e.args)))
+            if f.id == "bool" and len(e.args) == 1 and not e.keywords:
+                return Cond(self.to_cond(self.eval(e.args[0], env), e.args[0]))
             if f.id == "len":
-                return Opaque("int")
+                if len(e.args) == 1 and isinstance(e.args[0], ast.Name):
+                    v = self.eval(e.args[0], env)
+                    if isinstance(v, (VS, SetOf)):
+                        return LenV(v, norm(e.args[0]))
+                return OpaqueNN("int")
             if f.id == "set" and len(e.args) == 1:
                 v = self.eval(e.args[0], env)
                 if isinstance(v, VS):
                     return SetOf(v, norm(e.args[0]))
-                return Opaque("set")
-            if f.id in ("str", "int", "float", "repr", "format", "set", "tuple", "hash"):
-                return Opaque(f.id)
+                return OpaqueNN("set")
+            if f.id in ("str", "repr", "format"):
+                return StrV()
+            if f.id in ("int", "float", "set", "tuple", "hash"):
+                return OpaqueNN(f.id)
             if f.id == "list" and len(e.args) == 1:
                 v = self.eval(e.args[0], env)
                 if isinstance(v, VS):
                     return VS(v.tt, v.nodup)
-                return Opaque("list")
+                return OpaqueNN("list")
             if f.id == "Var" and len(e.args) == 1:
                 v = self.eval(e.args[0], env)
                 if isinstance(v, VarV):
@@ -937,11 +1039,15 @@ class Interp:
                 _t, selfv, fi = callee
                 if fi.kind == "static":
                     return self.call_function(fi, pos, kw)
+                if fi.kind == "classmethod":
+                    return self.call_function(fi, [TypeV(selfv.cls) if isinstance(selfv, Obj) else selfv] + list(pos), kw)
                 return self.call_function(fi, pos, kw, self_val=selfv)
             if tag == "unbound":
                 _t, cname, fi = callee
                 if fi.kind == "static":
                     return self.call_function(fi, pos, kw)
+                if fi.kind == "classmethod":
+                    return self.call_function(fi, [TypeV(cname)] + list(pos), kw)
                 return self.call_function(fi, pos[1:], kw, self_val=pos[0] if pos else None)
             if tag == "tlmethod":
                 return self.tl_method(callee[1], callee[2], pos, kw, e)
@@ -967,6 +1073,17 @@ class Interp:
                 return Opaque("listmethod")
             if tag == "ignore":
                 return NONE
+            if tag == "strmethod":
+                return StrV() if callee[1] in ("format", "join", "strip", "lower", "upper", "replace", "format_map", "lstrip", "rstrip", "capitalize", "title") else OpaqueNN("strmethod")
+            if tag == "lambda":
+                lam, env0 = callee[1], dict(callee[2])
+                names = [a.arg for a in lam.args.args]
+                if len(pos) > len(names) or lam.args.vararg or lam.args.kwarg:
+                    raise AnalysisError("lambda called with %d arguments in %s" % (len(pos), self.cur))
+                for n_, v_ in zip(names, pos):
+                    env0[n_] = v_
+                env0.update(kw)
+                return self.eval(lam.body, env0)
         if isinstance(callee, TypeV):
             return self.construct(callee.cls, pos, kw, e)
         if isinstance(callee, Opaque):
@@ -1002,6 +1119,24 @@ class Interp:
             tv.names = names
             return tv
         init = self.prog.resolve_method(cname, "__init__")
+        if init is None and ci.is_dataclass and self.prog.resolve_method(cname, "__post_init__") is None:
+            # a plain record: one field per annotated name, in order
+            obj = Obj(cname)
+            names = [f for f, _d in ci.fields]
+            if len(pos) > len(names):
+                raise AnalysisError("%s built with too many arguments in %s" % (cname, self.cur))
+            given = dict(zip(names, pos))
+            for k, v in kw.items():
+                if k not in names or k in given:
+                    raise AnalysisError("%s has no field %s (in %s)" % (cname, k, self.cur))
+                given[k] = v
+            for f, d in ci.fields:
+                if f not in given:
+                    if d is None:
+                        raise AnalysisError("%s built without its field %s in %s" % (cname, f, self.cur))
+                    given[f] = self.eval(d, {})
+                obj.fields[f] = given[f]
+            return obj
         obj = Obj(cname)
         rec = {"cls": cname, "func": self.cur, "node": node, "pos": pos, "kw": kw, "ok": False}
         self.ctor_calls.append(rec)
@@ -1030,7 +1165,9 @@ class Interp:
             self._store_back(base_node, ListV([pos[0]]), env)
             return NONE
         if name == "index":
-            return Opaque("int")
+            if len(pos) == 1 and isinstance(pos[0], VarV):
+                return IndexV(base, pos[0])
+            return OpaqueNN("int")
         raise AnalysisError("list method .%s on a variable list in %s is outside the fragment" % (name, self.cur))
 
     # ----------------------------------------------------- TermList methods
